@@ -667,7 +667,7 @@ func (e *wmEnv) exec(p *wmPathIn, idx int) (out wmStepOut, cont bool) {
 				w.i = len(e.workers[want.A]) + 1
 				e.workers[want.A] = append(e.workers[want.A], w)
 				arm(nil)
-			case <-time.After(e.hang):
+			case <-time.After(2 * e.hang):
 				// the dispatcher took the peer but made no worker for
 				// it: the peer is connected (environment fact) and
 				// nobody will ever hand it a job
